@@ -297,3 +297,165 @@ Proof.
   unfold ns. pose proof (Z.div_mod (now + dur) 1000000000 ltac:(lia)).
   pose proof (Z.mod_pos_bound (now + dur) 1000000000 ltac:(lia)). lia.
 Qed.
+
+(* ---------------- the public layer (BanPeer / UnbanPeer / IsBanned) ---------------- *)
+Lemma pstep_fst s o : fst (pstep s o) = fst (run s (lower o)).
+Proof.
+  destruct o as [p r now dur|p|p now]; cbn [pstep lower];
+    (destruct (parse_ipnet p None) as [n|]; [|reflexivity]).
+  - rewrite run_fst_cons. cbn [run fst]. now destruct (step s (Ban n r now dur)).
+  - rewrite run_fst_cons. cbn [run fst]. now destruct (step s (Unban n)).
+  - rewrite run_fst_cons. cbn [run fst]. now destruct (step s (Status n now)).
+Qed.
+
+Lemma prun_fst_cons s o ops : fst (prun s (o :: ops)) = fst (prun (fst (pstep s o)) ops).
+Proof. cbn [prun]. destruct (pstep s o) as [s1 ob]. cbn [fst]. now destruct (prun s1 ops). Qed.
+
+Lemma prun_snd_cons s o ops :
+  snd (prun s (o :: ops)) = snd (pstep s o) :: snd (prun (fst (pstep s o)) ops).
+Proof. cbn [prun]. destruct (pstep s o) as [s1 ob]. cbn [fst snd]. now destruct (prun s1 ops). Qed.
+
+(* the store after a public history is the store after the store operations
+   it amounts to: the public layer adds no state *)
+Lemma prun_fst s h : fst (prun s h) = fst (run s (lower_all h)).
+Proof.
+  revert s; induction h as [|o h IH]; intros s; [reflexivity|].
+  rewrite prun_fst_cons, IH, pstep_fst. unfold lower_all. cbn [flat_map].
+  now rewrite run_app_fst.
+Qed.
+
+Lemma lower_all_app a b : lower_all (a ++ b) = lower_all a ++ lower_all b.
+Proof. unfold lower_all. apply flat_map_app. Qed.
+
+Lemma pisbanned_obs s p q :
+  snd (pstep s (PIsBanned p q)) =
+  PAns match parse_ipnet p None with
+       | Some n => banned_bit (snd (step s (Status n q)))
+       | None => false
+       end.
+Proof.
+  cbn [pstep]. destruct (parse_ipnet p None) as [n|]; [|reflexivity].
+  destruct (step s (Status n q)) as [s' ob]. cbn [snd]. now destruct ob.
+Qed.
+
+Lemma status_err s n q : encode n = None -> snd (step s (Status n q)) = OErr.
+Proof. intros E. cbn [step]. now rewrite E. Qed.
+
+(* MAIN (public layer): an IsBanned answer is the banned bit of the store
+   spec for the parsed network, for every history of public calls *)
+Lemma ptimes_snoc_query h p q :
+  ptimes (h ++ [PIsBanned p q]) =
+  match parse_ipnet p None with Some _ => ptimes h ++ [q] | None => ptimes h end.
+Proof.
+  unfold ptimes. rewrite lower_all_app, times_app. unfold lower_all at 2.
+  cbn [flat_map lower]. destruct (parse_ipnet p None); cbn [app times]; [reflexivity|].
+  apply app_nil_r.
+Qed.
+
+Lemma public_status_exact h p q :
+  monotone (ptimes (h ++ [PIsBanned p q])) ->
+  snd (pstep (fst (prun [] h)) (PIsBanned p q)) = PAns (public_spec h p q).
+Proof.
+  intros Hm. rewrite ptimes_snoc_query in Hm.
+  rewrite pisbanned_obs. unfold public_spec. f_equal.
+  destruct (parse_ipnet p None) as [n|]; [|reflexivity].
+  destruct (encode n) as [k|] eqn:E.
+  - rewrite prun_fst. now rewrite (status_exact (lower_all h) n k q E Hm).
+  - now rewrite status_err.
+Qed.
+
+(* one IP address in its 4-byte and 16-byte forms parses to one network *)
+Lemma to4_parse p a : to4 p = Some a ->
+  parse_ipnet p None =
+  Some {| ip := and_bytes a default_v4_mask; mask := default_v4_mask |}.
+Proof.
+  intros H4. unfold parse_ipnet. rewrite H4. f_equal. f_equal.
+  unfold ip_mask. change (len default_v4_mask =? 16) with false. cbn [andb].
+  change (len default_v4_mask =? 4) with true. cbn [andb].
+  unfold to4 in H4. destruct (len p =? 4) eqn:E4.
+  - injection H4 as <-. apply Z.eqb_eq in E4.
+    assert (len p =? 16 = false) as -> by (apply Z.eqb_neq; lia). cbn [andb].
+    change (len default_v4_mask) with 4. rewrite E4. reflexivity.
+  - destruct (len p =? 16) eqn:E16; cbn [andb] in *; [|discriminate].
+    destruct (bytes_eqb (firstn 12 p) v4prefix); [|discriminate].
+    injection H4 as <-.
+    assert (len (skipn 12 p) = 4) as Hl.
+    { apply Z.eqb_eq in E16. unfold len in *. rewrite skipn_length. lia. }
+    rewrite Hl. reflexivity.
+Qed.
+
+Lemma to16_to4 p1 p2 : to16 p1 = to16 p2 -> to16 p1 <> None -> to4 p1 = to4 p2.
+Proof.
+  unfold to16, to4. intros H Hn.
+  destruct (len p1 =? 4) eqn:A4, (len p2 =? 4) eqn:B4.
+  - injection H as H. now subst.
+  - destruct (len p2 =? 16) eqn:B16; [|discriminate]. injection H as <-.
+    cbn [andb]. change (firstn 12 (v4prefix ++ p1)) with v4prefix.
+    rewrite bytes_eqb_refl. reflexivity.
+  - destruct (len p1 =? 16) eqn:A16; [|congruence]. injection H as ->.
+    cbn [andb]. change (firstn 12 (v4prefix ++ p2)) with v4prefix.
+    rewrite bytes_eqb_refl. reflexivity.
+  - destruct (len p1 =? 16) eqn:A16; [|congruence].
+    destruct (len p2 =? 16) eqn:B16; [|discriminate]. now injection H as ->.
+Qed.
+
+Lemma same_ip_parse p1 p2 : same_ip p1 p2 -> parse_ipnet p1 None = parse_ipnet p2 None.
+Proof.
+  intros [H Hn]. pose proof (to16_to4 p1 p2 H Hn) as H4.
+  destruct (to4 p1) as [a|] eqn:E1.
+  - now rewrite (to4_parse p1 a E1), (to4_parse p2 a (eq_sym H4)).
+  - (* not IPv4: both are the 16-byte form itself *)
+    assert (forall p, to4 p = None -> to16 p <> None -> to16 p = Some p) as K.
+    { intros p. unfold to4, to16. destruct (len p =? 4); [discriminate|].
+      destruct (len p =? 16); [reflexivity|congruence]. }
+    assert (to16 p2 <> None) as Hn2 by now rewrite <- H.
+    rewrite (K p1 E1 Hn), (K p2 (eq_sym H4) Hn2) in H. now injection H as ->.
+Qed.
+
+(* the answer (and the store afterwards) does not depend on the form in
+   which the address was given *)
+Lemma public_form_independent s p1 p2 q : same_ip p1 p2 ->
+  pstep s (PIsBanned p1 q) = pstep s (PIsBanned p2 q).
+Proof. intros H. cbn [pstep]. now rewrite (same_ip_parse p1 p2 H). Qed.
+
+Lemma public_spec_form_independent h p1 p2 q : same_ip p1 p2 ->
+  public_spec h p1 q = public_spec h p2 q.
+Proof. intros H. unfold public_spec. now rewrite (same_ip_parse p1 p2 H). Qed.
+
+(* the model of the public layer satisfies the monitor evaluated on
+   implementation traces *)
+Lemma ban_obs s n r now dur :
+  snd (step s (Ban n r now dur)) = match encode n with Some _ => OOk | None => OErr end.
+Proof. cbn [step]. now destruct (encode n). Qed.
+Lemma unban_obs s n :
+  snd (step s (Unban n)) = match encode n with Some _ => OOk | None => OErr end.
+Proof. cbn [step]. now destruct (encode n). Qed.
+
+Lemma pmodel_holds_from hist ops :
+  monotone (ptimes (hist ++ ops)) ->
+  pholds_from hist (combine ops (snd (prun (fst (prun [] hist)) ops))) = true.
+Proof.
+  revert hist; induction ops as [|o ops IH]; intros hist Hm; [reflexivity|].
+  rewrite prun_snd_cons. cbn [combine pholds_from].
+  apply andb_true_iff. split.
+  - destruct o as [p r now dur|p|p now].
+    + cbn [pstep]. unfold addr_ok. destruct (parse_ipnet p None) as [n|]; [|reflexivity].
+      pose proof (ban_obs (fst (prun [] hist)) n r now dur) as Hb.
+      destruct (step (fst (prun [] hist)) (Ban n r now dur)) as [s' ob]. cbn [snd] in *. subst ob.
+      now destruct (encode n).
+    + cbn [pstep]. unfold addr_ok. destruct (parse_ipnet p None) as [n|]; [|reflexivity].
+      pose proof (unban_obs (fst (prun [] hist)) n) as Hb.
+      destruct (step (fst (prun [] hist)) (Unban n)) as [s' ob]. cbn [snd] in *. subst ob.
+      now destruct (encode n).
+    + rewrite public_status_exact; [apply eqb_reflx|].
+      change (hist ++ PIsBanned p now :: ops) with (hist ++ [PIsBanned p now] ++ ops) in Hm.
+      unfold ptimes in *. rewrite app_assoc, lower_all_app, times_app in Hm.
+      now apply monotone_prefix in Hm.
+  - replace (fst (pstep (fst (prun [] hist)) o)) with (fst (prun [] (hist ++ [o]))).
+    + apply IH. now rewrite <- app_assoc.
+    + rewrite !prun_fst, pstep_fst, lower_all_app, run_app_fst. unfold lower_all at 2.
+      cbn [flat_map]. now rewrite app_nil_r.
+Qed.
+
+Lemma pmodel_holds h : monotone (ptimes h) -> pholds (combine h (snd (prun [] h))) = true.
+Proof. intros H. apply (pmodel_holds_from [] h H). Qed.
